@@ -105,6 +105,8 @@ func init() {
 	add("C17", "C13", "C13.R2")
 	// copy into a fresh destination goes through the batch writer's choice of the base interval
 	add("C08", "C06", "C06.R6~^archiveUpdateMany")
+	// the method a file names (by text or by number) is the method aggregate applies
+	add("C02", "C19", "C19.R4~^name-of:")
 	// the text output of sum shows stored values and slot times as they are
 	add("C10", "C18", "C18.R1")
 	// what the handlers stream is decoded by the clients: encoder and decoder agree field by field
